@@ -83,6 +83,17 @@ def system_io(rec, hub, rng, i):
         fd.MFASystem(dims=mfa.dims, parameters=dict(mfa.parameters), processes=dict(mfa.processes), flows=dict(mfa.flows), stocks=dict(mfa.stocks))
     except Exception:
         pass
+    # the system's own checks read the system; with negative / NaN entries somewhere they warn or raise, and change nothing
+    neg = [f_ for f_ in mfa.flows.values() if f_.values.size]
+    if neg:
+        for f_ in [neg[int(q)] for q in rng.permutation(len(neg))[:2]]:
+            f_.values.reshape(-1)[int(rng.integers(0, f_.values.size))] = -abs(float(f_.values.reshape(-1)[0])) - 5.0
+    for f in (lambda: mfa.check_mass_balance(raise_error=False), lambda: mfa.check_mass_balance(), lambda: mfa.check_flows(), lambda: mfa.check_flows(raise_error=True), lambda: mfa.check_flows(verbose=True),
+              lambda: mfa.check_mass_balance(tolerance=1e9, raise_error=False)):
+        try:
+            f()
+        except Exception:
+            pass
     tmp = tempfile.mkdtemp(prefix="vmon-c15-")
     try:
         for f in (lambda: ex.convert_to_dict(mfa), lambda: ex.convert_to_dict(mfa, type="pandas"), lambda: ex.export_mfa_to_pickle(mfa, os.path.join(tmp, "m.pickle")),
